@@ -105,7 +105,7 @@ class HierarchyLeg(Leg):
     case_type = "bool"
     rule = ("random class hierarchies (3-6 vertex classes and 2-4 edge classes over Vertex / DirectedEdge / UnDirectedEdge, single "
             "and multiple inheritance, diamonds), a random subset configured with distinguishable type keywords, title formats and "
-            "arrow sides (title fields: plain attributes, the uid property, a property of the class; 2 in 5 hierarchies reuse class names); small graphs over instances of all classes; every declaration header and every relation line must carry "
+            "arrow sides (title fields: plain attributes, the uid property, a property of the class, an indexed tuple attribute, a `!r` conversion; 2 in 5 hierarchies reuse class names); small graphs over instances of all classes; every declaration header and every relation line must carry "
             "the options of the first configured class in type(x).__mro__; non-trivial = some class has two bases")
     quick_n = 120
     thorough_n = 3000
@@ -155,8 +155,9 @@ class HierarchyLeg(Leg):
         for i, c in enumerate(vcls):
             if case["vconf"][i]:
                 # title fields: a plain attribute, the uid (a property of BaseObject), a property of the class itself
-                field = ["{nm}", "{nm}_{uid}", "{label}"][i % 3] if "samename" in case else "{nm}"
-                opts[c] = {"type": self.TYPES[1 + i % 7], "show_attrs": ["^(nm|uid|label)$"] if "samename" in case else ["^nm$"],
+                # ... and format-spec features: an index into a tuple-valued attribute, a conversion
+                field = ["{nm}", "{nm}_{uid}", "{label}", "{pos[0]}_{nm!r}"][i % 4] if "samename" in case else "{nm}"
+                opts[c] = {"type": self.TYPES[1 + i % 7], "show_attrs": ["^(nm|uid|label|pos)$"] if "samename" in case else ["^nm$"],
                            "title_format": f"c{i}_{field}"}
         for i, c in enumerate(ecls):
             if case["econf"][i]:
@@ -166,6 +167,7 @@ class HierarchyLeg(Leg):
         for j, ci in enumerate(case["verts"]):
             v = vcls[ci](universes=[uni])
             v.nm = f"n{j}"
+            v.pos = (j, j + 1)
             vs.append(v)
         es = [ecls[k](vs[a], vs[b]) for k, a, b in case["edges"]]
 
@@ -173,7 +175,7 @@ class HierarchyLeg(Leg):
             return next(opts[c] for c in type(v).__mro__ if c in opts)
 
         def title(v):
-            return vopt(v)["title_format"].format(nm=v.nm, uid=v.uid, label=getattr(v, "label", None))
+            return vopt(v)["title_format"].format(nm=v.nm, uid=v.uid, label=getattr(v, "label", None), pos=v.pos)
         exp_decl = [[vopt(v)["type"], title(v), type(v).__name__] for v in vs]
         exp_rel = sorted(f"{title(e.v1)} {o['v1side']}--{o['v2side']} {title(e.v2)}"
                          for e in es for o in [next(opts[c] for c in type(e).__mro__ if c in opts)])
